@@ -226,12 +226,29 @@ def sib5(ctx, pid):
     for q in (SMT + ".set", "trie.smt:calc_root"):
         f = ctx.P.func(q)
         probs = []
+        unsure = []
         seen = 0
+        # the fold is the last loop (in execution order) that tests a bit: when the walk that collects the branch
+        # was inlined into `set`, its own bit tests (MSB first) are not the fold's
+        def loops_in_order(block, acc):
+            for s_ in block:
+                if isinstance(s_, (ast.For, ast.While)):
+                    acc.append(s_)
+                for fld in ("body", "orelse", "finalbody"):
+                    sub = getattr(s_, fld, None)
+                    if isinstance(sub, list) and sub and isinstance(sub[0], ast.stmt):
+                        loops_in_order(sub, acc)
+                if isinstance(s_, ast.Try):
+                    for h in s_.handlers:
+                        loops_in_order(h.body, acc)
+            return acc
+        bit_loops = [lp for lp in loops_in_order(f.node.body, []) if any(isinstance(n_, ast.BinOp) and isinstance(n_.op, ast.BitAnd) for n_ in ast.walk(lp))]
+        fold_ids = {id(n_) for n_ in ast.walk(bit_loops[-1])} if bit_loops else None
         for p, st in pq.states(ctx, f, unroll=1):
             bit = None
             for t, pol, node in st.log:
                 tt, pp = truth_norm(t, pol)
-                if tt[0] == "bin" and tt[1] == "&":
+                if tt[0] == "bin" and tt[1] == "&" and (fold_ids is None or id(node) in fold_ids):
                     bit = (tt, pp)
                     bitvar, nodevar = _bit_names(f, node)
             if bit is None:
@@ -252,7 +269,19 @@ def sib5(ctx, pid):
             if cat is not None and cat[0] == "call" and cat[1] == KECCAK:
                 cat = cat[2][0]
             if cat is None or cat[0] != "bin" or cat[1] != "+":
-                probs.append("cannot interpret the parent construction `%s`" % tstr(nv)[:60])
+                # whatever the locals are called and however the two halves are selected (`left, right = ..` in
+                # the arms, one shared concatenation after them): the parent is the one concatenation of a
+                # sibling taken from the branch with something else that a local holds at the end of the round
+                cands = set()
+                for v_ in st.env.values():
+                    w_ = v_
+                    if isinstance(w_, tuple) and w_ and w_[0] == "call" and w_[1] == KECCAK and w_[2]:
+                        w_ = w_[2][0]
+                    if isinstance(w_, tuple) and len(w_) == 4 and w_[0] == "bin" and w_[1] == "+" and (w_[2][0] == "iter") != (w_[3][0] == "iter"):
+                        cands.add(w_)
+                cat = next(iter(cands)) if len(cands) == 1 else None
+            if cat is None or cat[0] != "bin" or cat[1] != "+":
+                unsure.append("cannot interpret the parent construction `%s`" % tstr(nv)[:60])
                 continue
             left, right = cat[2], cat[3]
             sib_first = left[0] == "iter"
@@ -267,6 +296,8 @@ def sib5(ctx, pid):
         c = "direction:%s" % fkey(f)
         if probs:
             ctx.bad(c, f.loc(), probs[0], witness={"problems": sorted(set(probs))})
+        elif unsure:
+            ctx.unsure(c, f.loc(), unsure[0])
         elif seen < 2:
             ctx.bad(c, f.loc(), "no bit test found in the fold loop")
         else:
